@@ -151,15 +151,37 @@ Definition dec_attempt (x : sx) : option (attempt * kinput) :=
   | _ => None
   end.
 
+(* the same history at the level of the client object (Model/Keepalive.v, client_quits): every attempt
+   that starts a loop made the quit channel of its connection, and every session of a harness history is
+   ended - its keep-alive is asked to stop.  Whether the quit of the k-th session IS closed then is what
+   the client-level model says, for the k-th session as for the first; a session whose quit it leaves open
+   is run as one that nothing ends (k_term 2: the loop goes on with whatever the continuation offers). *)
+Definition hist_closed (l : list (attempt * kinput)) : list bool :=
+  rev (client_quits [] (flat_map (fun ai => match loops_started (fst ai) with
+                                            | O => []
+                                            | S _ => session_ops 0
+                                            end) l)).
+Definition unended (i : kinput) : kinput :=
+  {| k_interval := k_interval i; k_term := (if k_term i =? 0 then 2 else k_term i); k_failat := k_failat i;
+     k_nsucc := k_nsucc i; k_suffix := k_suffix i; k_mode := k_mode i; k_lossy := k_lossy i;
+     k_srvn := k_srvn i; k_script := k_script i; k_end := k_end i; k_client := k_client i;
+     k_late := k_late i |}.
+Fixpoint run_sessions (closed : list bool) (l : list (attempt * kinput)) : list sx :=
+  match l with
+  | [] => []
+  | ai :: r =>
+      match loops_started (fst ai) with
+      | O => run_sessions closed r
+      | S _ => run_typed (if hd false closed then snd ai else unended (snd ai)) :: run_sessions (tl closed) r
+      end
+  end.
+
 Definition run_C18 (x : sx) : sx :=
   match x with
   | SL [SZ 99; SL atts] =>
       match omap dec_attempt atts with
       | Some l =>
-          SL [SL (flat_map (fun ai => match loops_started (fst ai) with
-                                      | O => []
-                                      | S _ => [run_typed (snd ai)]
-                                      end) l);
+          SL [SL (run_sessions (hist_closed l) l);
               SL (map (fun ai => SB (attempt_leaves_session (fst ai))) l);
               (* the client's state after the attempt: 1 established, 0 disconnected, 2 not compared *)
               SL (map (fun ai => SZ (match o_state (run_attempt (fst ai)) with
